@@ -10,6 +10,7 @@ import LispModel.LispErrorDriver
 import LispModel.PositionDriver
 import LispModel.PkgRegDriver
 import LispModel.MetaDriver
+import LispModel.TyCtorDriver
 open LispModel
 
 def splitBar (s : String) : List String := s.splitOn " | "
@@ -147,6 +148,7 @@ partial def matchPreamble (phs : List (String × Val)) (text : List Char) (src :
 def handle (line : String) : String :=
   match line.splitOn "\t" with
   | ["pkgreg", payload] => PkgReg.handlePkgReg payload
+  | ["tyctor", payload] => TyCtor.handleTyCtor payload  -- C13/C04/C14 support, see LispModel/TyCtorDriver.lean
   | ["meta", payload] => Meta.handleMeta payload  -- C02/C06/C13/C14 support, see LispModel/MetaDriver.lean
   | ["eq", payload] =>
     match (splitBar payload).map Proto.parseLine with
